@@ -1,7 +1,8 @@
+\* (FastAgree is checked by MC_DataX.cfg and MC_DataX_thorough3.cfg; here it would decode every 64 KB payload twice more)
 \* thorough (a): every program of two writes, with the real 16-bit / 32-bit length thresholds as payloads
 SPECIFICATION MCSpec
 CONSTANTS MaxLen = 2
           BlobLens = {0, 1, 253, 254, 255, 256, 65535, 65536}
           KSet = {7, 15, 23, 31, 39, 63}
-INVARIANTS SizeOK ReadBack ExactConsumption NoStuck Canonical SelfDelimiting Complete FastAgree
+INVARIANTS SizeOK ReadBack ExactConsumption NoStuck Canonical SelfDelimiting Complete
 CHECK_DEADLOCK FALSE
